@@ -21,6 +21,7 @@
    ([C09_float_exact]). *)
 From Verif Require Base.GoSem Proofs.SrcCborP.
 From Verif Require Import Base.Prelude Base.CborSpec Proofs.CborSpecP Enc.CborEnc Proofs.CborEncP.
+From Verif Require Gen.FieldCborSrc Proofs.SrcFieldCborP.
 Open Scope N_scope.
 
 (* ---- the reference parser is sound and complete for the specification ---- *)
@@ -169,6 +170,38 @@ Proof. exact Proofs.SrcCborP.cbor_source_refines_model. Qed.
 Example C09_source_ex : Gen.CborSrc.AppendInt [] (-9223372036854775808)%Z = GoSem.Ok [59;127;255;255;255;255;255;255;255] /\ Gen.CborSrc.AppendString [] [1;2;3] = GoSem.Ok [99;1;2;3].
 Proof. vm_compute. split; reflexivity. Qed.
 
+(* ---- about the SOURCE of the Event field methods as the binary build compiles them: Gen/FieldCborSrc.v is the
+   translation (harness/cmd/srcgen, build tag binary_log) of /repo/event.go's Str, Strs, Bytes, Hex, Bool(s),
+   Int*(s), Uint*(s), Float32/64, Floats32/64, Dur(s), IPAddr, MACAddr (and Stack, CallerSkipFrame).  Each keyed
+   method returns the receiver whose buffer is the model's [enc_prim (cbor_AppendKey buf key) p], every other field
+   unchanged.  Premises ([fcall_ok], exactly those of the encoder theorems above): key / string / slice lengths
+   below 2^62, integers in the int64 range, float32 patterns below 2^32, DurationFieldUnit <> 0.  [ft], [fd] are
+   CborEnc's float oracles; the source's float quotient is [fun a b => mk64 (fd a b)]. ---- *)
+Theorem C09_source_event_fields : forall (ft : Z -> N -> N) (fd : Z -> Z -> N) (prec du : Z) (di : bool)
+    (e : FieldCborSrc.Event_st) (key : list N) (c : SrcFieldCborP.fcall),
+  SrcFieldCborP.key_pre key -> SrcFieldCborP.fcall_ok du c ->
+  SrcFieldCborP.run_fcall fd prec du di e key c =
+  GoSem.Ok (let b := enc_prim ft fd (cbor_AppendKey (FieldCborSrc.Event_buf e) key) (SrcFieldCborP.prim_of du di c) in
+            (FieldCborSrc.set_Event_buf e b, FieldCborSrc.set_Event_buf e b)).
+Proof. exact SrcFieldCborP.event_fields_refine_cbor_model. Qed.
+
+(* a chain of field calls e.M1(k1,v1).M2(k2,v2)... from buffer [b0] leaves [enc_fields b0] of the logged
+   (key, value) list in the buffer: the assumption of [C09_wellformed] about the fields of one event, discharged
+   for the translated methods *)
+Theorem C09_source_event_field_sequence : forall (ft : Z -> N -> N) (fd : Z -> Z -> N) (prec du : Z) (di : bool)
+    (calls : list (list N * SrcFieldCborP.fcall)) (e : FieldCborSrc.Event_st) (b0 : list N),
+  FieldCborSrc.Event_buf e = b0 ->
+  Forall (fun kc => SrcFieldCborP.key_pre (fst kc) /\ SrcFieldCborP.fcall_ok du (snd kc)) calls ->
+  SrcFieldCborP.run_fcalls fd prec du di e calls =
+  GoSem.Ok (FieldCborSrc.set_Event_buf e
+    (enc_fields ft fd b0 (map (fun '(k, c) => (k, VP (SrcFieldCborP.prim_of du di c))) calls))).
+Proof. exact SrcFieldCborP.event_field_sequence_refines_enc_fields. Qed.
+
+(* every function of the translation unit was translated, none skipped *)
+Theorem C09_source_fields_translated_set :
+  length FieldCborSrc.translated_functions = 36%nat /\ length FieldCborSrc.skipped_functions = 0%nat.
+Proof. exact SrcFieldCborP.field_cbor_counts. Qed.
+
 Print Assumptions C09_parser_sound.
 Print Assumptions C09_parser_complete.
 Print Assumptions C09_decoding_unique.
@@ -185,3 +218,6 @@ Print Assumptions C09_values.
 Print Assumptions C09_context_splice.
 Print Assumptions C09_stream.
 Print Assumptions C09_source_refines_model.
+Print Assumptions C09_source_event_fields.
+Print Assumptions C09_source_event_field_sequence.
+Print Assumptions C09_source_fields_translated_set.
